@@ -142,6 +142,24 @@ CLAIMED["C18"] = dict(
     technique="runtime monitoring: render/parse round-trip oracle with structural type equality",
 )
 
+CLAIMED["C15"] = dict(
+    category="exploration",
+    text="Edit histories (4-14 steps) over graphs of up to 6 in-memory modules - add (registered only or loaded), change "
+         "a value, change a value's type or an exported type definition, add/remove an import edge, introduce/remove a "
+         "cycle, import a module that does not exist yet and add it later, repair importers - interleaved with "
+         "evaluations, are applied to one long-lived VM; every evaluation and load is repeated on a fresh VM given only "
+         "the latest sources and must agree (value, type, error class and first line); verif.fx.loaded at the top of "
+         "every module body counts body runs (more than one between two source changes is a violation); a reported "
+         "cycle must name only modules that lie on a cycle of the latest graph; CPU-budget and blocked-forever "
+         "monitors catch hangs. Plus every history of length <= 4 (quick) / 6 (thorough) over an 11-letter alphabet on "
+         "a fixed 3-module graph.",
+    design_ref="DESIGN.md §4 C15",
+    note="When both VMs fail but with different first errors, the long-lived VM's error is accepted only if it can be "
+         "checked true of the latest sources here (a valid cycle, a module that really is missing). F45 (module added "
+         "after a failed import stays 'not found') found by this check and repaired.",
+    technique="runtime monitoring: differential history replay (long-lived VM vs fresh VM as executable model) with an effect-log monitor for module body runs",
+)
+
 CLAIMED["C17"] = dict(
     category="exploration",
     text="Operation histories over send/recv/store/load/force/spawn/resume/yield (2 channels, 2 references, 5 lazies "
